@@ -108,6 +108,10 @@ Calls ==
   \cup {Call(f, a) : f \in {"bool", "int", "float", "str"}, a \in NumArgs \cup {BoolA("True"), Own("p"), StrA("$s")}}
   \cup {Call(f, a) : f \in {"len", "sum", "prod", "max", "min"}, a \in Compounds}
   \cup {Call("len", StrA("$s"))}
+  \* an aggregate nested as a direct member of the set another aggregate ranges over
+  \cup {Call(f, SetOf(<<Call(g, c), NumA("0")>>)) : f \in {"max", "min", "sum"}, g \in {"max", "min", "len"},
+                                                    c \in {Own("xs"), Rng("[", NumA("0"), Own("y"), "]"), SetOf(<<Own("x"), Own("y")>>), SetOf(<<NumA("1"), NumA("2")>>)}}
+  \cup {Call(f, SetOf(<<Own("x"), Call(f, Own("xs")), Call(f, SetOf(<<Own("y"), NumA("3")>>))>>)) : f \in {"max", "min"}}
 FunExprs ==
   Calls \cup {Bn(op, c, b) : op \in {"=", "<", "+"}, c \in Calls \ {Call(f, a) : f \in {"bool", "str"}, a \in NumArgs \cup {BoolA("True"), Own("p"), StrA("$s")}}, b \in {Own("y"), NumA("2")}}
 Inclusions ==
@@ -392,6 +396,9 @@ Lin2 == {Bn(m, Bn("+", l, b), k) : m \in {"*", "/"}, l \in Lin1, b \in {NumA("0"
         \cup {Bn(m, l, k) : m \in {"*", "/"}, l \in Lin1, k \in LinK}
 LinCmp == {Bn(op, l, c) : op \in {"<", "<=", ">", ">=", "=", "!="}, l \in Lin2, c \in {NumA("10"), NumA("6"), Un("-", NumA("6"))}}
           \cup {Bn(op, c, l) : op \in {"<", ">="}, l \in Lin2, c \in {NumA("6")}}
+(* ---- a BARE alias (the message itself) as a function argument, next to ordinary references through the same / another alias ---- *)
+BareAlias == {Bn(o, Bn(">", Call(f, VarR(v1)), NumA("0")), r) : o \in {"and", "or"}, f \in {"yaw", "roll"}, v1 \in {"@A", "@C"},
+                 r \in {Bn(">", Fld(VarR("@A"), "n"), Own("x")), Bn("<", Own("x"), NumA("1")), Bn("=", Call("pitch", VarR("@A")), Fld(VarR("@C"), "n"))}}
 RandTerms == {IF i % 3 = 0 THEN RNum(RandDepth) ELSE RBool(RandDepth) : i \in 1..RandN}
 
 Members ==
@@ -417,6 +424,7 @@ Members ==
     [] Family = "resolve" -> Resolve
     [] Family = "negbool" -> NegBool
     [] Family = "lincmp"  -> LinCmp
+    [] Family = "barealias" -> BareAlias
     [] OTHER -> {}
 
 TInit == cst \in Members
